@@ -5,6 +5,9 @@ from engine import site
 
 CONFIGS = ['prod']
 EXPLANATION = (
+    'SEM (primary): send / recv interpreted over all weak orders of (clock, wall, message) time, node-id equality and drift / exhaustion oracles, compared '
+    'with the hybrid-clock rule (time = max, counter +1 on equal time else 0, drift of the message and of the new time refused, exhaustion refused, one sta'
+    'te write, wall clock read once). Structural fallback: '
     'Decided clauses on HLCTimestamp::send / ::recv: H1 a failing request leaves the clock unchanged (exactly one state write per body, '
     'no error return reachable after it, every Ok return passes it); H2 the issued stamp carries the clock\'s own node id and send '
     'returns the state taken after the write; H3 logical time is a max-join of old state, wall clock (and message time in recv); '
